@@ -32,8 +32,12 @@ def run_conc(ctx, scenario, mode, cases, drivers=(), seed_offset=0, extra=()):
     for fl in re.findall(r'CONC-FAIL kind=(\S+) case=(\d+) seed=(\d+) replay=(\S+) (.*)', out)[:6]:
         kind, case, seed, replay, msg = fl
         k = 'oracle' if kind in ('oracle', 'deadlock') else 'model'
-        t.failures.append(Failure(k, 'conc %s/%s case %s: %s: %s' % (scenario, mode, case, kind, msg[:300]), replay=replay,
-                                  key='conc-%s-%s' % (scenario, kind)))
+        key = 'conc-%s-%s' % (scenario, kind)
+        # known finding C12/kf2 seen from several threads: a wrong (stale) value of a fixpoint
+        # program in a LATER revision (round >= 1); first-round results are never excused
+        if kind == 'oracle' and scenario == 'c18' and re.match(r'round [1-9]\d* thread \d+: node \d+ = \d+ want \d+', msg):
+            key = 'fix-participant-stale-after-revalidation'
+        t.failures.append(Failure(k, 'conc %s/%s case %s: %s: %s' % (scenario, mode, case, kind, msg[:300]), replay=replay, key=key))
     if int(m.group(7)) > 0 and not t.failures:
         t.failures.append(Failure('model', 'conc %s reports %s failures without CONC-FAIL lines: %s' % (scenario, m.group(7), out[-600:])))
     # Lean replay of the hook traces
